@@ -1,5 +1,6 @@
 """C01 — Every submitted task runs exactly once (structural necessary conditions)."""
 from rules.common import start
+from rules import wave2
 from rules import queues, pool, hookrules
 from rules.C03 import rmw_rule
 
@@ -27,6 +28,8 @@ def run(tier):
     # a task waiting in any queue this pool can take from gets a worker: try_grow refuses only when local, sibling and
     # shared queues are all empty, and a blocked worker is replaced (otherwise the task is stranded while the loop runs)
     hookrules.grow_rule(run, f, "C01-WORKER-FOR-WAITING-TASK")
+    # clauses added for the wave-2 seeds (rules/wave2.py; DESIGN 12a)
+    wave2.grow_refusal_rule(run, f, "C01-GROW-REFUSAL")
     return run.finish()
 
 
